@@ -36,7 +36,7 @@ PROPS = {
              "long-term average, and the full C02 validity/lock-step oracle on every packet; non-trivial = a control change took effect after the first frame and >=5 calls succeeded; "
              "distinct = 64-bit signature over (TOC, duration, tiny flag, small-MTU flag, ctl outcome) sequence",
         fault_keys=["ctl_applied", "ctl_rejected", "mtu_le4", "enc_invalid_args", "enc_refused"],
-        probes_required=["cbr_checked", "cbr_max_fill", "ms_cbr_checked", "mode_silk", "mode_hybrid", "mode_celt"],
+        probes_required=["cbr_checked", "cbr_max_fill", "ms_cbr_checked", "ms_cbr_exact_checked", "cvbr_checked", "mode_silk", "mode_hybrid", "mode_celt"],
         real=REAL_CODEC, simulated=SIM_COMMON,
         assumptions=ASSUME_COMMON + ["CBR size accepted when within 0.5+1/12 byte of bitrate*duration/8 (the code rounds in 1/12-byte units)"],
     ),
@@ -79,7 +79,7 @@ PROPS = {
              "padding bytes, and carriage of extension-bearing packets through repacketizer merges and splits (incl. splits inside a multi-frame packet and extensions added at output); "
              "non-trivial = a fault fired (small buffer / illegal argument / corrupted bytes / split inside a packet) and >=5 successful operations; distinct = signature over (frames, list size, pattern, fuzz kind/outcome, carriage shape) sequence",
         fault_keys=["ext_small_buffer", "ext_bad_args", "ext_fuzzed", "carriage_split_inside", "ext_parse_rejected"],
-        probes_required=["ext_roundtrip", "ext_repeat_pattern", "ext_lacing_ge255", "ext_fuzz_parsed", "carriage_out", "carriage_added", "carriage_checked_nonempty"],
+        probes_required=["ext_roundtrip", "ext_repeat_pattern", "ext_lacing_ge255", "ext_fuzz_parsed", "carriage_out", "carriage_added", "carriage_checked_nonempty", "ext_frame_limited_iterations", "ext_find_checked"],
         real=REAL_CODEC, simulated=SIM_COMMON + ["extension-list model", "packet pool and frame-list model"],
         assumptions=ASSUME_COMMON + ["the list<->bytes bijection is exercised at exploration strength only (it is a pure function; the simulated part is capacity faults, corruption and repacketizer carriage)"],
     ),
